@@ -48,42 +48,56 @@ def plan(tier):
     return 200 if tier == "quick" else 4000
 
 
+VARIANTS = ["clean"] * 8 + ["end_start", "end_start_open", "sym_unit", "zero_width", "broad_gauss", "ambiguous_terminal", "same_atom_unit",
+                          "symmetric_product"]
+
+
 def spec_from_seed(run_seed, tier):
+    """A clean base (single-atom terminals of unique elements, asymmetric distinct units, narrow positive laws) on which the
+    unchanged tree agrees with the generator, plus variants that each add exactly ONE feature with a known mol_prob finding."""
     rnd = random.Random(run_seed)
-    clean = rnd.random() < 0.6
-    if clean:
-        kind = rnd.choice(["prefix", "prefix", "prefix_multi"])
-    else:
-        kind = rnd.choice(["prefix", "prefix_multi", "end_start", "end_start_open"])
-    nb = 1 if kind != "prefix_multi" else rnd.choice([2, 2, 3])
-    pool = list(UNITS_ASYM) if clean else UNITS_ASYM + UNITS_SYM + UNITS_HALO
-    units = rnd.sample(pool, nb)  # distinct units: the decomposition of a chain into blocks is then unique
+    variant = rnd.choice(VARIANTS)
+    nb = rnd.choice([1, 1, 2, 2, 3]) if variant in ("clean", "zero_width", "broad_gauss", "ambiguous_terminal") else 1
+    units = rnd.sample(UNITS_ASYM, nb)
+    if variant == "sym_unit":
+        units = [rnd.choice(["{0}CC{1}", "{0}COC{1}", "{0}CC(C)({1})C(=O)OC"])]
+    if variant == "same_atom_unit":
+        units = ["{0}C{1}"]
+    if variant == "symmetric_product":
+        units = ["{0}C(N)C{1}"]
     blocks = []
     fams = []
-    for u in units:
+    for bi, u in enumerate(units):
         fam = rnd.choice(archetypes.FAMILIES)
         dist, fam = archetypes.make_dist(rnd, archetypes.unit_mass(u), rnd.choice([1, 2, 3, 4]), fam)
-        if clean and fam == "gauss":
-            # narrow, strictly positive law: no zero width, no mass below zero (both are known findings, exercised by the other share)
-            T = archetypes.unit_mass(u) * rnd.choice([2, 3, 4])
+        T = archetypes.unit_mass(u) * rnd.choice([2, 3, 4])
+        if fam == "gauss":
+            # narrow, strictly positive law: zero width / mass below zero are separate variants
             dist = "|gauss(%r, %r)|" % (round(T, 3), round(T / rnd.choice([6, 8, 12]), 3))
+        if bi == 0 and variant == "zero_width":
+            fam, dist = "gauss", "|gauss(%r, 0)|" % round(T * 0.9, 3)
+        if bi == 0 and variant == "broad_gauss":
+            fam, dist = "gauss", "|gauss(%r, %r)|" % (round(T, 3), round(T * 0.6, 3))
         fams.append(fam)
         blocks.append((u, dist))
-    tags = ["kind:" + kind, "clean" if clean else "any"] + ["family:" + f for f in fams]
-    if kind in ("prefix", "prefix_multi"):
-        text = rnd.choice(PREFIX_CLEAN if clean else PREFIX_ANY)
-        for i, (u, dist) in enumerate(blocks):
-            text += "{[>]" + u.format("[<]", "[>]") + "[<]}" + dist
-            if i < nb - 1 and not clean and rnd.random() < 0.4:
-                text += rnd.choice(CONNECT_ANY)
-                tags.append("connector")
-        text += rnd.choice(SUFFIX_CLEAN if clean else SUFFIX_ANY)
-    elif kind == "end_start":
+    tags = ["variant:" + variant] + ["family:" + f for f in fams]
+    prefix = rnd.choice(PREFIX_CLEAN)
+    suffix = rnd.choice(SUFFIX_CLEAN)
+    if variant == "ambiguous_terminal":
+        prefix, blocks[0] = "OCC", ("{0}CCO{1}", blocks[0][1])
+    if variant == "symmetric_product":
+        prefix = "N"
+    if variant == "end_start":
         u, dist = blocks[0]
-        text = "{[]" + u.format("[<]", "[>]") + "; [<]" + rnd.choice(["[H]", "F", "C"]) + ", [>]" + rnd.choice(["CO", "N", "Cl"]) + " []}" + dist
+        text = "{[]" + u.format("[<]", "[>]") + "; [<]" + rnd.choice(["[H]", "F", "Br"]) + ", [>]" + rnd.choice(["Cl", "I"]) + " []}" + dist
+    elif variant == "end_start_open":
+        u, dist = blocks[0]
+        text = "{[]" + u.format("[<]", "[>]") + "; " + rnd.choice(["[H]", "F", "Br"]) + "[>] [<]}" + dist + rnd.choice(["Cl", "I"])
     else:
-        u, dist = blocks[0]
-        text = "{[]" + u.format("[<]", "[>]") + "; " + rnd.choice(["[H]", "F", "C"]) + "[>] [<]}" + dist + rnd.choice(["CO", "[Si]"])
+        text = prefix
+        for u, dist in blocks:
+            text += "{[>]" + u.format("[<]", "[>]") + "[<]}" + dist
+        text += suffix
     return {"kind": "ensprob", "prop": "C19", "text": text, "tags": tags, "seed": rnd.randrange(1 << 30), "perm_seed": rnd.randrange(1000)}
 
 
@@ -103,6 +117,8 @@ def input_features(ast):
             elif 0.5 * math.erfc(mu / sig / math.sqrt(2)) > 1e-7:
                 feats.append("gauss_negative_tail")
     for t in ast.residues():
+        if len(set(t.sites)) < len(t.sites):
+            feats.append("two_descriptors_on_one_atom")
         try:
             m = Chem.Mol(t.frag)
             Chem.SanitizeMol(m)
